@@ -58,8 +58,10 @@ def sources(chk, scr, tier, seed, only=None):
     if not only or "grammar" in only:
         from . import grammar_gen
         n = 150 if q else 2500
-        sents = grammar_gen.sentences(seed + 11, n, 70 if q else 110, scratch=scr)
+        st = {}
+        sents = grammar_gen.sentences(seed + 11, n, 70 if q else 110, scratch=scr, cover=8 if q else 3, stats=st)
         chk.extra["grammar_sentences"] = len(sents)
+        chk.extra["grammar_production_coverage"] = st
         for k, kinds in enumerate(sents):
             if not kinds:
                 continue
